@@ -59,6 +59,106 @@ def finalize_uses_external(ctx, rule):
                   ctx.where(e.body, e.bb))
 
 
+def _walk_values(t):
+    """sub-terms whose *value* the term depends on: the position counter of a loop (`idx(X)`) depends on that loop only, not on what
+    X is an element of"""
+    from bpsa.terms import is_term
+    stack = [t]
+    seen = set()
+    while stack:
+        x = stack.pop()
+        if not is_term(x):
+            if isinstance(x, tuple):
+                stack.extend(x)
+            continue
+        if x.id in seen:
+            continue
+        seen.add(x.id)
+        yield x
+        if x.tag == 'index':
+            continue
+        stack.extend(x.args)
+
+
+def positional_fill(ctx, rep, d, n):
+    """Witness bytes written positionally (`buf[a..b].copy_from_slice(x)` inside loops over the openings / blinding factors) instead of
+    appended: every iteration must write its own bytes.  Decided on the offset terms: (1) the offset of a write depends on the index of
+    every enclosing loop (otherwise later iterations overwrite earlier ones and only the last element reaches the RNG key); (2) where the
+    sizes are polynomials of the lengths, the bytes written in total equal the buffer's length (no part of the buffer stays zero while
+    a part of the witness is left out)."""
+    from bpsa.normal import canon
+    seen = set()
+    total = {}
+    total_ok = True
+    buf_len = None
+    nwrites = 0
+    for ev in [x for x in walk(d) if x.tag == 'ev' and x[1] == 'call' and x[2].split('::')[-1] in ('copy_from_slice', 'clone_from_slice') and x[4]]:
+        bkey, ebb = ev[4][-1]
+        if (bkey, ebb) in seen:
+            continue
+        seen.add((bkey, ebb))
+        eb = ctx.facts.by_key.get(bkey)
+        if eb is None:
+            continue
+        recv = ctx.args(eb, ebb)[0]
+        r0 = recv
+        while r0.tag in ('mut', 'via'):
+            r0 = r0[1] if r0.tag == 'mut' else r0[2]
+        if r0.tag != 'elemat':
+            continue
+        base = r0[1]
+        nwrites += 1
+        zk = 'R-C14-2/rekey/%02d/positional@%s:%d' % (n, bkey.split('::')[-1], ebb)
+        try:
+            rb = ilen.range_bounds(r0[2], base)
+        except ilen.NoLen:
+            rb = None
+        lo_t = None
+        rr = r0[2]
+        while rr.tag in ('mut', 'via'):
+            rr = rr[1] if rr.tag == 'mut' else rr[2]
+        if rr.tag == 'range':
+            lo_t = rr[1]
+        elif rr.tag == 'adt' and rr[2]:
+            lo_t = dict(rr[2]).get('start')
+        loops = ctx.enclosing_loops(eb, ebb)
+        missing = []
+        for lp in loops:
+            it = strip(lp.iter_term) if lp.iter_term is not None else None
+            if it is None:
+                continue
+            coll = it
+            while coll.tag in ('enumerate', 'adapt') and coll.tag == 'enumerate':
+                coll = strip(coll[1])
+            sub = list(_walk_values(lo_t)) if lo_t is not None else []
+            dep = any((x.tag in ('index', 'elem') and (strip(x[1]) is coll or strip(x[1]) is it)) or x.tag == 'lv' for x in sub)
+            if not dep:
+                missing.append(short(lp.iter_term, 60))
+        rep.check(not missing, 'R-C14-2', zk, 'the offset of the positional write depends on the index of each of its %d enclosing loops' % len(loops),
+                  'a positional write of witness bytes uses an offset (%s) that does not depend on the loop over %s: every iteration overwrites the same bytes and only the last one reaches the RNG key'
+                  % (short(lo_t, 80) if lo_t is not None else '?', missing), ctx.where(eb, ebb))
+        # bytes written by this site in total
+        try:
+            if rb is None:
+                raise ilen.NoLen('range')
+            w = ilen.padd(rb[1], rb[0], -1)
+            cnt = w
+            for lp in loops:
+                cnt = ilen.pmul(cnt, ilen.icount(lp.iter_term))
+            if any(any('idx(' in a for a in mono) for mono in cnt):
+                raise ilen.NoLen('width depends on an index')
+            total = ilen.padd(total, cnt)
+            bl = ilen.clen(base)
+            buf_len = bl if buf_len is None else buf_len
+            if bl != buf_len:
+                total_ok = False
+        except ilen.NoLen:
+            total_ok = False
+    if nwrites and total_ok and buf_len is not None:
+        rep.check(total == buf_len, 'R-C14-2', 'R-C14-2/rekey/%02d/positional-total' % n, 'the positional writes fill the buffer exactly (%s bytes)' % (buf_len,),
+                  'the positional writes put %s bytes into a buffer of %s bytes: part of the witness is left out, or part of the buffer stays zero' % (total, buf_len))
+
+
 def run(ctx):
     rep = ctx.rep
     prover = wire.entry(ctx, 'prover', 'R-C14-1')
@@ -157,6 +257,7 @@ def run(ctx):
                 rep.check(same, 'R-C14-2', zk, 'the fill loop pairs its two sides exhaustively (equal counts: %s)' % why,
                           'a fill loop of the witness bytes pairs the secret source with slots of a different count (%s): part of the witness may be left out of the RNG key' % why,
                           ctx.where(eb, ebb))
+        positional_fill(ctx, rep, d, n)
         rep.check(lab == wire.WITNESS_LABEL and okv and okr and r_each and no_adapt, 'R-C14-2', key,
                   'rekey #%d uses label %r and bytes containing every opening\'s value and every blinding factor' % (n, lab),
                   'rekey #%d: label %r, value covered: %s, blinding factors covered: %s (element-wise: %s); data = %s' % (n, lab, okv, okr, r_each and no_adapt, short(d, 200)) + (' through %s' % ctx.adapters(d) if not no_adapt else ''),
